@@ -181,6 +181,22 @@ def as_real(v):
     return c.real
 
 
+def _double_eval_agrees(expr, point, g):
+    """Evaluate the source expression with plain double-precision arithmetic (lambdify -> math); large intermediate
+    arguments of sin/cos/tan lose digits in any double evaluation, which is not a conversion error."""
+    try:
+        e = expr
+        if e.atoms(sympy.Function):
+            for name, fn in USER_SYM.items():
+                e = e.replace(sympy.Function(name), fn)
+        keys = sorted(str(s_) for s_ in e.free_symbols)
+        f = sympy.lambdify([sympy.Symbol(k) for k in keys], e, modules="math")
+        v = float(f(*[float(point[k]) for k in keys]))
+        return math.isfinite(v) and abs(v - g) <= 1e-9 * (1 + abs(v)) * 1e-2
+    except Exception:
+        return False
+
+
 def well_conditioned(expr, point, val):
     for k in point:
         p2 = dict(point)
@@ -284,6 +300,8 @@ def check_s2c(case, must_convert=True):
         if not math.isfinite(g) or abs(g - ref) > 1e-9 * (1 + abs(ref)):
             if not well_conditioned(e, case["point"], ref):
                 continue
+            if _double_eval_agrees(e, case["point"], g):
+                continue  # the same expression evaluated in double precision gives CasADi's value: conditioning, not conversion
             raise Violation("sympy_to_casadi changed the value: SymPy %s = %.15g at %s, CasADi result = %.15g (cse=%s, f_dict order %s)" % (
                 str(e)[:200], ref, {k: v for k, v in case["point"].items() if k in free}, g, case["cse"], case["fdict_order"]),
                 tree=case["tree"], point=case["point"])
